@@ -238,6 +238,7 @@ impl Calendar {
             );
         }
 
+        check_calendar_year(resolved_fields.era_year.year)?;
         let calendar_date = self
             .0
             .date_from_codes(
@@ -298,6 +299,7 @@ impl Calendar {
             );
         }
 
+        check_calendar_year(resolved_fields.era_year.year)?;
         // NOTE: This might preemptively throw as `ICU4X` does not support regulating.
         let calendar_date = self
             .0
@@ -521,6 +523,19 @@ impl Calendar {
         }
         self.0 .0.kind().as_bcp47_string()
     }
+}
+
+/// No calendar year (or era year) of this magnitude names a date inside Temporal's range: the
+/// widest year numbering, `ethioaa`, runs from about -266_000 to 281_000.
+const MAX_CALENDAR_YEAR: u32 = 300_000;
+
+/// Refuses years that cannot name a representable date in any calendar, before the calendrical
+/// library sees them (its year arithmetic is 32-bit and overflows near `i32::MAX`).
+fn check_calendar_year(year: i32) -> TemporalResult<()> {
+    if year.unsigned_abs() > MAX_CALENDAR_YEAR {
+        return Err(TemporalError::range().with_message("year is outside the supported range."));
+    }
+    Ok(())
 }
 
 /// The ISO 8601 week rule: weeks start on Monday and week 1 is the first week
